@@ -292,7 +292,9 @@ class TaskManager:
 
         if tasks:
             with suppress(CancelledError):
-                await gather(*tasks)
+                # Wait for ALL of them: without return_exceptions gather() returns as soon as the first task has been
+                # cancelled, while tasks with an asynchronous clean-up are still winding down.
+                await gather(*tasks, return_exceptions=True)
 
         for post_shutdown_task, args, kwargs in self._shutdown_tasks:
             if iscoroutinefunction(post_shutdown_task):
